@@ -92,7 +92,7 @@ fn segs(tier: Tier, with_programs: bool) -> Vec<Seg> {
     ];
     if with_programs {
         let s = spaces(tier);
-        v.push(Seg { name: "programs", count: s.t1.len() + s.t2.len() + s.t3.len() });
+        v.push(Seg { name: "programs", count: s.total() });
     }
     v
 }
@@ -876,7 +876,7 @@ impl Property for C04 {
     fn meta(&self, tier: Tier) -> Meta {
         let s = spaces(tier);
         Meta {
-            rule: format!("the C03 corpora (token-class sequences, character strings) restricted to inputs that parse and build accept, plus the {} well-formed programs of the C01 corpora. Oracle (structure only): child/parent links agree, no node shared or on a cycle, every node reachable from the root once, the in-order walk (synthesised list nodes skipped) lists every significant token exactly once in source order (whitespace, annotations, closing brackets never; separators at most once), every value/operator node has at least one instruction attributed (groups, else-jumps and inner nodes of a flattened list chain exempt). Non-trivial = accepted input; distinct by text.", s.t1.len() + s.t2.len() + s.t3.len()),
+            rule: format!("the C03 corpora (token-class sequences, character strings) restricted to inputs that parse and build accept, plus the {} well-formed programs of the C01 corpora. Oracle (structure only): child/parent links agree, no node shared or on a cycle, every node reachable from the root once, the in-order walk (synthesised list nodes skipped) lists every significant token exactly once in source order (whitespace, annotations, closing brackets never; separators at most once), every value/operator node has at least one instruction attributed (groups, else-jumps and inner nodes of a flattened list chain exempt). Non-trivial = accepted input; distinct by text.", s.total()),
             assumptions: vec!["'redundant separators' = any blank-line / `;` token the parser chose to drop: separators are required to appear at most once, not exactly once".into()],
             trusted_base: vec!["engine/src/props/pipeline.rs check_tree/check_tokens/check_attribution".into()],
             explanation: "bounded-exhaustive enumeration with a structural oracle on ParseResult and BuildData".into(),
@@ -948,7 +948,7 @@ impl Property for C05 {
     fn meta(&self, tier: Tier) -> Meta {
         let s = spaces(tier);
         Meta {
-            rule: format!("every input of the C03 corpora that the pipeline accepts plus the {} programs of the C01 corpora, each built four times: into a fresh SimpleGarnishData / BasicGarnishData and into objects pre-loaded with 7 foreign instructions, 3 jump entries and 5 constants. Oracle per instruction: operand present iff required, data operands in range and naming a value of the required kind, jump operands and expression values naming a jump entry appended by this build, every appended jump entry pointing at an instruction emitted by this build (a surviving 0 placeholder is foreign in the pre-loaded object), last instruction is EndExpression or JumpTo, the instruction before every block entry (build entry, target of JumpIfTrue/JumpIfFalse/And/Or, body of an expression value) is EndExpression or JumpTo, one metadata record per emitted instruction naming an existing node. Non-trivial = accepted input; distinct by text.", s.t1.len() + s.t2.len() + s.t3.len()),
+            rule: format!("every input of the C03 corpora that the pipeline accepts plus the {} programs of the C01 corpora, each built four times: into a fresh SimpleGarnishData / BasicGarnishData and into objects pre-loaded with 7 foreign instructions, 3 jump entries and 5 constants. Oracle per instruction: operand present iff required, data operands in range and naming a value of the required kind, jump operands and expression values naming a jump entry appended by this build, every appended jump entry pointing at an instruction emitted by this build (a surviving 0 placeholder is foreign in the pre-loaded object), last instruction is EndExpression or JumpTo, the instruction before every block entry (build entry, target of JumpIfTrue/JumpIfFalse/And/Or, body of an expression value) is EndExpression or JumpTo, one metadata record per emitted instruction naming an existing node. Non-trivial = accepted input; distinct by text.", s.total()),
             assumptions: vec!["'every straight-line run ends in a terminator' is checked as: the stream's last instruction is a terminator and so is the instruction before every block entry (entry point, conditional-jump target, expression body); a jump entry used only by JumpTo is a join point inside a run".into()],
             trusted_base: vec!["engine/src/props/pipeline.rs check_stream, operand_kind table".into()],
             explanation: "bounded-exhaustive enumeration with a well-formedness oracle on the built instruction stream".into(),
